@@ -167,6 +167,7 @@ Section World.
       + destruct (acall_dead_vs u_list s Hl) as [Hn [Hvs _]].
         destruct (acall u_list s) as [s1 r]. cbn [fst snd] in *. subst r. auto.
     - (* Remove *)
+      clear Hnoup Hlk.
       change (v_locked (vs_of s)) with (locked s). cbn [Shim.step]. destruct (locked s) eqn:Hl0; [auto|].
       unfold Shim.remove_key. change (v_mem (vs_of s)) with (mem s).
       change (v_ulocked (vs_of s)) with (ulocked (ua s)). change (v_ids (vs_of s)) with (ids (ua s)).
@@ -194,12 +195,12 @@ Section World.
         unfold u_remove. rewrite ulocked_bump.
         destruct (ulocked (ua s)) eqn:Hu; cbn [negb andb fst snd].
         * destruct (mem_b key (mem s)) eqn:Hk; cbn [orb fst snd]; [destruct (noup _)|]; cbn [fst snd];
-            (split; [|reflexivity]); apply Hfin0.
+            (split; [|reflexivity]); first [apply (proj2 (Hfin0 [])) | apply (proj1 (Hfin0 _))].
         * cbn [ids bump]. destruct (mem_b key (ids (ua s))) eqn:Hi; cbn [fst snd].
           -- rewrite orb_true_r. destruct (mem_b key (mem s)); destruct (noup _); cbn [fst snd];
-               (split; [|reflexivity]); apply Hfin.
+               (split; [|reflexivity]); first [apply (proj2 (Hfin [] _)) | apply (proj1 (Hfin _ _))].
           -- rewrite orb_false_r. destruct (mem_b key (mem s)) eqn:Hk; cbn [fst snd]; [destruct (noup _)|]; cbn [fst snd];
-               (split; [|reflexivity]); apply Hfin0.
+               (split; [|reflexivity]); first [apply (proj2 (Hfin0 [])) | apply (proj1 (Hfin0 _))].
       + assert (Hl1 : ~ live s1) by (intro H; apply v_live_iff in H; congruence).
         destruct (acall_dead_vs (u_remove key) s1 Hl1) as [Hn [Hvs Hca]].
         destruct (acall (u_remove key) s1) as [s2 r]. cbn [fst snd] in *. subst r.
@@ -228,8 +229,8 @@ Section World.
       live_cases s; cbn [andb].
       + rewrite (acall_nf script nofault (u_lock p) s Hl). unfold u_lock. rewrite ulocked_bump.
         change (v_ulocked (vs_of s)) with (ulocked (ua s)).
-        destruct (ulocked (ua s)) eqn:Hu; cbn [negb fst snd]; split; try reflexivity.
-        unfold vs_of. cbn. rewrite Hl0. reflexivity.
+        destruct (ulocked (ua s)) eqn:Hu; cbn [negb fst snd]; split; try reflexivity;
+          unfold vs_of; cbn; rewrite ?Hl0; reflexivity.
       + destruct (acall_dead_vs (u_lock p) s Hl) as [Hn [Hvs _]].
         destruct (acall (u_lock p) s) as [s1 r]. cbn [fst snd] in *. subst r. auto.
     - (* Unlock *)
@@ -238,9 +239,9 @@ Section World.
       + rewrite (acall_nf script nofault (u_unlock p) s Hl). unfold u_unlock. rewrite upass_bump.
         change (v_pass (vs_of s)) with (upass (ua s)).
         destruct (upass (ua s)) as [q|] eqn:Hu; cbn [option_eqb].
-        * destruct (list_eqb N.eqb p q); cbn [fst snd]; split; try reflexivity.
-          unfold vs_of. cbn. rewrite Hl0, Hu. reflexivity.
-        * cbn [fst snd]. split; [|reflexivity]. unfold vs_of. cbn. rewrite Hl0, Hu. reflexivity.
+        * destruct (list_eqb N.eqb p q); cbn [fst snd]; split; try reflexivity;
+            unfold vs_of; cbn; rewrite ?Hl0, ?Hu; reflexivity.
+        * cbn [fst snd]. split; [|reflexivity]. try reflexivity; unfold vs_of; cbn; rewrite ?Hl0, ?Hu; reflexivity.
       + destruct (acall_dead_vs (u_unlock p) s Hl) as [Hn [Hvs _]].
         destruct (acall (u_unlock p) s) as [s1 r]. cbn [fst snd] in *. subst r. auto.
     - (* Forward *)
@@ -252,7 +253,7 @@ Section World.
     - (* Close *)
       change (v_locked (vs_of s)) with (locked s). change (v_closed (vs_of s)) with (closed s).
       cbn [Shim.step]. destruct (locked s) eqn:Hl0; [auto|]. destruct (closed s) eqn:Hc; [auto|].
-      split; reflexivity.
+      split; [|reflexivity]. unfold vs_of. cbn. rewrite Hl0. reflexivity.
     - (* DirectAdd *)
       cbn [Shim.step fst snd]. split; [|reflexivity]. unfold direct_add, u_add.
       change (v_ulocked (vs_of s)) with (ulocked (ua s)). destruct (ulocked (ua s)) eqn:Hu; [destruct s; reflexivity|].
@@ -261,7 +262,8 @@ Section World.
       cbn [Shim.step fst snd]. split; [|reflexivity]. unfold direct_remove, u_remove.
       change (v_ulocked (vs_of s)) with (ulocked (ua s)). destruct (ulocked (ua s)) eqn:Hu; [destruct s; reflexivity|].
       destruct (mem_b b (ids (ua s))) eqn:Hi; cbn [fst]; [reflexivity|].
-      unfold vs_of, set_v_ids. cbn. rewrite (remove_blob_notin b (ids (ua s))) by (apply mem_b_false; exact Hi).
-      reflexivity.
+      change (v_ids (vs_of s)) with (ids (ua s)).
+      rewrite (remove_blob_notin b (ids (ua s))) by (apply mem_b_false; exact Hi).
+      destruct s; reflexivity.
   Qed.
 End World.
